@@ -30,7 +30,7 @@ ASSUMPTIONS = [
     "Python `re.search` is the pattern semantics (what JSON Schema prescribes, modulo dialect)",
 ]
 MIN_EVALUATIONS = {"quick": 3000, "thorough": 100000}
-MIN_NONTRIVIAL = {"quick": 1500, "thorough": 30000}
+MIN_NONTRIVIAL = {"quick": 1200, "thorough": 30000}
 REACH_FLOORS = {"raw:path": 1000, "raw:query": 500, "raw:header": 300, "raw:body": 500, "operations": 100}
 SHARD_TIMEOUT = {"quick": 900, "thorough": 5400}
 
@@ -280,7 +280,7 @@ def run_shard(spec, emit):
             if generated and samples < 2:
                 samples += 1
                 sample = {"version": version, "cfg": cfg, "declared": {k: {n: s for n, (s, _) in v.items()} for k, v in declared.items() if v}, "raw": {k: v[1] for k, v in raw.items()}}
-            emit.case(sig=f"{op_idx}|{shard}|{version}|{cfg}|{shape}" if generated else None, sample=sample)
+            emit.case(sig=f"{op_idx}|{shard}|{version}|{cfg}|{shape}|{hash(repr(sorted((k, repr(v[1])) for k, v in raw.items())))}" if generated else None, sample=sample)
             for key, what in viols:
                 emit.viol(key, what, {"doc": doc, "cfg": cfg, "raw": {k: v[1] for k, v in raw.items()}})
 
